@@ -45,6 +45,21 @@ def workspace(ctx, pid, which):
             ctx.anchor_lost(rule, 'solve::%s par_extend of the payoff cache' % w)
         ctx.ok(rule + '.summary', '%s.summary:%s' % (rule, tt), 'what the frontier builder needs from its caller is derived from its own body', f.where(0) if f else '',
                'requires empty at entry: %s' % (sorted('arg%d%s' % (k[0][1], ''.join('.' + x for x in k[1])) for k in summ.requires) if summ else '?'))
+    # a pass leaves its workspace as it found it: every container reachable from the `&mut Workspace` parameter of the
+    # per-pass function is empty again at every return (so the next pass starts from nothing, whichever helper
+    # — or nobody — checks it at entry).  Derived from the function's own body by the typestate analysis.
+    if 'external' in which:
+        pf = ctx.fn('lib', 'solve::external::single_player_iter', rule)
+        if pf is not None:
+            summ = eng.summary(pf)
+            conts = {k: v for k, v in (summ.exit if summ else {}).items() if k[0][0] == 'param' and k[1]}
+            if not conts:
+                ctx.anchor_lost(rule, 'single_player_iter: containers of the workspace parameter')
+            for k, v in sorted(conts.items(), key=str):
+                ctx.verdict(v in (e3.E, e3.IN) if hasattr(e3, 'IN') else v == 'E', rule, '%s:exit:single_player_iter:%s' % (rule, '.'.join(k[1])),
+                            'the per-pass function returns with every workspace container empty (what a pass queued or cached does not survive into the next pass)', pf.where(0),
+                            'state of arg%d.%s at exit: %s' % (k[0][1], '.'.join(k[1]), {'E': 'empty', 'M': 'possibly non-empty', 'N': 'non-empty'}.get(v, v)),
+                            breaks='frontier nodes queued in one pass are dispatched in the next, off its sampled path: results depend on the thread count')
     ctx.stats['call_sites'] += eng.sites
     return eng
 
@@ -246,6 +261,28 @@ def child_reach_fresh(ctx, pid, fnames=None):
                     ctx.verdict(fresh, rule, '%s:%s' % (rule, q.top(g.name)), 'the child\'s reach is a fresh copy of the parent\'s reach for every child: the copy is made inside the loop over the children, before it is scaled',
                                 g.where(bm), 'reach vector `%s` copied from the parent inside the child loop: %s (%s)' % (g.local_name(l) or '_%d' % l, fresh, why),
                                 breaks='the k-th child is given the product of the first k action probabilities instead of its own: wrong reach in the subtrees handed to worker tasks')
+        # the same defect with the loop written as an iterator adaptor: the per-item closure scales a reach vector it
+        # captured by mutable reference (copied from the parent's reach *outside* the closure, once for all children)
+        PER_ITEM = {'map', 'for_each', 'filter_map', 'flat_map', 'scan', 'inspect', 'try_for_each', 'fold'}
+        for cf in lib.closures_of(f):
+            parent, agg = q.parent_agg(lib, cf)
+            if parent is None or agg is None:
+                continue
+            per_item = any(short(p_) in PER_ITEM and q.find_sub(parent.call_expr(t_, bj), lambda x: x[0] == 'agg' and x[1] == agg[1]) is not None for bj, t_, p_ in parent.calls())
+            if not per_item:
+                continue
+            for bj, t_, p_ in cf.calls():
+                if short(p_) != 'ind_mut' or len(t_['args']) < 2:
+                    continue
+                e_ = cf.call_expr(t_, bj)
+                up = [x for x in facts.walk(e_[2][1]) if x[0] == 'upvar' and '[f64; 2]' in cf.upvar_tys.get(x[1], '')]
+                if not up:
+                    continue
+                n += 1
+                ctx.touch(cf)
+                ctx.verdict(False, rule, '%s:%s' % (rule, q.top(cf.name)), 'the child\'s reach is a fresh copy of the parent\'s reach for every child: the copy is made inside the loop over the children, before it is scaled',
+                            cf.where(bj), 'the per-child closure scales `%s`, a reach vector it captured by mutable reference: one copy shared by all children (%s)' % (up[0][2] or 'upvar', why),
+                            breaks='the k-th child is given the product of the first k action probabilities instead of its own: wrong reach in the subtrees handed to worker tasks')
     if n == 0:
         ctx.anchor_lost(rule, 'per-child reach vectors in %s' % sorted(fnames or REACH_DERIVERS))
 
